@@ -574,6 +574,171 @@ void World::CheckCycles(const InvRecord& r, const std::set<std::string>& dd_at_s
   }
 }
 
+// ------------------------------------------------------------------ C03
+// Non-order-only inputs of a statement as make semantics sees them: declared
+// explicit and implicit inputs, what its dyndep file adds, what it reported
+// through depfile / deps log; a phony alias stands for its own such inputs.
+std::vector<std::string> World::EffectiveInputs(int stmt) const {
+  std::vector<std::string> out;
+  std::set<std::string> seen;
+  std::function<void(const std::string&, int)> add = [&](const std::string& p, int depth) {
+    int pr = sc.Producer(p);
+    if (pr >= 0 && sc.stmts[pr].phony && depth < 20) {
+      const Stmt& ph = sc.stmts[pr];
+      for (auto& q : ph.ins) add(q, depth + 1);
+      for (auto& q : ph.imp_ins) add(q, depth + 1);
+      // the alias file itself counts when it exists
+      if (seen.insert(p).second) out.push_back(p);
+      return;
+    }
+    if (seen.insert(p).second) out.push_back(p);
+  };
+  const Stmt& s = sc.stmts[stmt];
+  for (auto& p : s.ins) add(p, 0);
+  for (auto& p : s.imp_ins) add(p, 0);
+  for (auto& p : s.extra_imp) add(p, 0);
+  if (const DyndepEntry* e = sc.DyndepFor(stmt)) for (auto& p : e->imp_ins) add(p, 0);
+  auto rh = reported_hidden.find(stmt);
+  if (rh != reported_hidden.end()) for (auto& p : rh->second) add(p, 0);
+  return out;
+}
+
+static std::string FullCmd(const Scenario& sc, const Stmt& s) { return HashCmdFor(sc, s); }
+
+void World::ComputeExpectedRun(const InvPlan& p) {
+  expected_run.clear();
+  expected_valid = false;
+  if (p.dry || !p.tool.empty()) return;
+  for (const Stmt& s : sc.stmts) if (s.alive && s.regen) return;           // two build cycles: not modelled
+  std::set<int> closure = Closure(EffectiveTargets(p), true);
+  // the logs as they are now (a deleted or lost record makes its statement out of date)
+  std::string lb, ld;
+  bool hb = k.ReadFile(sc.LogDir() + ".ninja_log", &lb), hd = k.ReadFile(sc.LogDir() + ".ninja_deps", &ld);
+  BuildLogFold lf = FoldBuildLog(lb, hb);
+  DepsLogFold df = FoldDepsLog(ld, hd);
+  // 1. statements affected directly
+  std::set<int> affected;
+  const Scenario& scr = sc;
+  Kernel& kr = k;
+  for (int id : closure) {
+    const Stmt& s = sc.stmts[id];
+    if (s.phony) continue;
+    auto st = clean_state.find(id);
+    bool aff = false;
+    if (st == clean_state.end()) aff = true;
+    else {
+      if (!s.generator && st->second.cmd_hash != NinjaCommandHash(FullCmd(sc, s))) aff = true;
+      for (auto& o : sc.DeclaredOuts(id)) {
+        auto om = st->second.out_mtime.find(o);
+        if (!k.Exists(o) || om == st->second.out_mtime.end() || om->second != k.Mtime(o)) aff = true;
+      }
+      if (s.deps_kind == 1 && !k.Exists(s.depfile)) aff = true;
+      if (!s.generator) for (auto& o : sc.DeclaredOuts(id)) { auto a = lf.last.find(o); if (a == lf.last.end() || a->second.hash != st->second.cmd_hash) aff = true; }
+      if (s.generator) {
+        // a generator needs no log record, but without one only the files' own
+        // times speak: an output older than an input (a restat run left it alone) is out of date
+        for (auto& o : sc.DeclaredOuts(id)) {
+          if (lf.last.count(o)) continue;
+          for (auto& in : EffectiveInputs(id)) if (k.Mtime(in) > k.Mtime(o)) aff = true;
+        }
+      }
+      if (s.deps_kind >= 2 && !df.last.count(s.outs[0])) aff = true;
+      for (auto& in : EffectiveInputs(id)) {
+        int pr = sc.Producer(in);
+        if (pr >= 0 && sc.stmts[pr].phony) {
+          // an alias without inputs whose file is missing is always out of date (documented)
+          const Stmt& ph = sc.stmts[pr];
+          if (ph.ins.empty() && ph.imp_ins.empty() && ph.oo_ins.empty() && ph.validations.empty() && !k.Exists(in)) aff = true;
+          if (!k.Exists(in)) continue;
+        }
+        auto im = st->second.in_mtime.find(in);
+        int64_t now_m = k.Mtime(in);
+        if (im == st->second.in_mtime.end() || im->second != now_m) aff = true;
+      }
+    }
+    if (aff) affected.insert(id);
+  }
+  // 2. plus everything downstream of an output that is actually rewritten
+  CleanEval ce(sc, [&scr, &kr](const std::string& pth, std::string* c) { if (scr.Producer(pth) >= 0) return false; return kr.ReadFile(pth, c); });
+  std::set<int> run = affected;
+  bool changed = true;
+  int guard = 0;
+  while (changed && guard++ < 100) {
+    changed = false;
+    for (int id : closure) {
+      if (run.count(id) || sc.stmts[id].phony) continue;
+      for (auto& in : EffectiveInputs(id)) {
+        int pr = sc.Producer(in);
+        if (pr < 0 || sc.stmts[pr].phony || !run.count(pr)) continue;
+        const Stmt& t = sc.stmts[pr];
+        const DyndepEntry* te = sc.DyndepFor(pr);
+        bool restat = t.restat || (te && te->restat);
+        bool rewritten = true;
+        if (restat) {
+          std::string want, have;
+          if (ce.Content(in, &want) && k.ReadFile(in, &have) && want == have) rewritten = false;
+        }
+        if (rewritten) { run.insert(id); changed = true; break; }
+      }
+    }
+  }
+  expected_run = run;
+  expected_valid = true;
+}
+
+void World::UpdateCleanState(const InvRecord& r) {
+  if (r.plan.dry || !r.plan.tool.empty()) return;
+  for (const SpawnRec& x : r.spawns) {
+    if (x.epoch != r.epochs && r.epochs > 1) continue;
+    const Stmt& s = sc.stmts[x.stmt];
+    if (!x.reap_seq || x.reap_status != 0) { clean_state.erase(x.stmt); continue; }   // an unsuccessful run leaves no trusted state
+    // recorded?  (a killed or failing ninja may not have got to the log)
+    bool recorded = true;
+    uint64_t want = NinjaCommandHash(FullCmd(sc, s));
+    for (auto& o : x.outs) { auto a = r.log_after.last.find(o); if (a == r.log_after.last.end() || a->second.hash != want) recorded = false; }
+    if (!recorded) { clean_state.erase(x.stmt); continue; }
+    CleanState st;
+    st.cmd_hash = want;
+    st.in_mtime = x.in_mtime_at_start;
+    for (auto& in : EffectiveInputs(x.stmt)) if (!st.in_mtime.count(in)) st.in_mtime[in] = x.in_mtime_at_start.count(in) ? x.in_mtime_at_start.at(in) : 0;
+    for (auto& o : sc.DeclaredOuts(x.stmt)) st.out_mtime[o] = k.Mtime(o);
+    clean_state[x.stmt] = st;
+  }
+  // (whatever happened to files other than through commands is seen as a changed
+  // mtime next time; lost log records are looked up in the logs themselves)
+}
+
+void World::CheckMinimality(const InvRecord& r) {
+  if (!expected_valid || r.plan.dry || !r.plan.tool.empty() || r.epochs > 1) return;
+  if (r.res.end != ProcResult::kExit) return;
+  std::set<int> ran;
+  for (const SpawnRec& x : r.spawns) ran.insert(x.stmt);
+  bool exact = r.ok() && r.quiet();
+  auto why = [&](int id) {
+    std::string w;
+    for (auto& in : EffectiveInputs(id)) { int pr = sc.Producer(in); if (pr >= 0 && ran.count(pr)) w += " (its input " + in + " comes from statement " + S(pr) + ", which ran)"; }
+    return w;
+  };
+  for (int id : ran)
+    if (!expected_run.count(id))
+      Report("C03", "extra_command", "statement " + S(id) + " ran although neither its inputs, command line, recorded dependencies nor outputs changed and nothing it reads was rewritten" + why(id));
+  if (exact)
+    for (int id : expected_run)
+      if (!ran.count(id))
+        Report("C03", "missing_command", "statement " + S(id) + " was affected by the change (or is downstream of a rewritten output) but did not run");
+  if (exact) {
+    stats->n["minimality_exact_checks"]++;
+    // named sub-oracles
+    for (int id : Closure(EffectiveTargets(r.plan), true)) {
+      const Stmt& s = sc.stmts[id];
+      if (s.phony || ran.count(id)) continue;
+      for (auto& p : s.oo_ins) { int pr = sc.Producer(p); if (pr >= 0 && ran.count(pr)) { stats->n["order_only_change_ran_nothing_downstream"]++; break; } }
+      for (auto& in : EffectiveInputs(id)) { int pr = sc.Producer(in); if (pr >= 0 && ran.count(pr) && (sc.stmts[pr].restat)) { stats->n["restat_noop_pruned"]++; break; } }
+      if (s.generator && clean_state.count(id) && clean_state[id].cmd_hash != NinjaCommandHash(FullCmd(sc, s))) stats->n["generator_cmdline_change_ran_nothing"]++;
+    }
+  }
+}
+
 void World::CheckAll(InvRecord& r) {
   CheckTermination(r);
   CheckOrdering(r);
@@ -583,6 +748,8 @@ void World::CheckAll(InvRecord& r) {
   CheckInterrupt(r);
   CheckOutput(r);
   CheckContent(r, "C01");
+  CheckMinimality(r);
+  UpdateCleanState(r);
 }
 
 }  // namespace sim
